@@ -50,6 +50,13 @@ class Ctx:
         self.checked = 0  # non-trivial checked steps
         self.step_no = -1
         self.sims = Counter()
+        self.xdig = {}  # answers that must not depend on the process hash seed: key -> digest (compared across worker processes)
+
+    def xanswer(self, key, obj):
+        """Record an answer that has to be identical in every process, whatever its PYTHONHASHSEED (obj: canonical, made of
+        ints / strings / lists only - never floats).  Keys are numbered per run in order of recording."""
+        k = f"{key}#{sum(1 for x in self.xdig if x.split('#')[0] == key)}"
+        self.xdig[k] = hashlib.sha256(jdump(obj).encode()).hexdigest()[:20]
 
     def event(self, *items):
         self.events.append(list(items))
@@ -84,6 +91,7 @@ class Ctx:
             "faults": dict(self.faults),
             "probes": dict(self.probes),
             "failures": self.failures,
+            "xdig": self.xdig,
         }
 
 
